@@ -39,7 +39,7 @@ COLS = ["name", "path", "ext", "dir", "size", "mode", "is_dir", "modified", "len
 
 
 def examples(tier):
-    return 700 if tier == "quick" else 10000
+    return 4200 if tier == "quick" else 56000
 
 
 @st.composite
